@@ -21,7 +21,7 @@ from __future__ import annotations
 import numpy as np
 
 import porepy as pp
-from engines.history import Op, run_history
+from engines.history import Observer, Op, run_history
 from simkit.runner import Workload
 from simkit.trace import Trace, Violation
 
@@ -39,7 +39,7 @@ ASSUMPTIONS = [
     "writes go to index 0 (plus the model's initialisation write to all indices of a fresh slot), as in the statement",
     "values are small integers stored as floats: additive results are exact, comparison is bitwise",
 ]
-PROBES = ["depth_changed_during_run", "shift_none_grows", "shift_on_empty", "additive_after_shift", "alias_probe_get", "alias_probe_set",
+PROBES = ["observation_sparse", "observation_end", "depth_changed_during_run", "shift_none_grows", "shift_on_empty", "additive_after_shift", "alias_probe_get", "alias_probe_set",
           "rejected_additive_empty", "rejected_negative_index", "rejected_no_index", "rejected_two_indices_get", "rejected_get_beyond_depth",
           "rejected_shift_negative", "rejected_shift_location", "set_both_locations", "integer_dtype_value", "depth_ge3_filled", "init_all_indices", "depth3_window_filled"]
 
@@ -133,7 +133,11 @@ def run_helpers(ch, tr: Trace) -> None:
         last_depth[loc] = d
         return d
 
-    def check_all(where):
+    obs = Observer(ch, tr)
+
+    def check_all(where, force=False):
+        if not (force or obs.due()):
+            return
         for (loc, nm), w in model.items():
             for i, slot in enumerate(w.slots):
                 val, constrained = slot
@@ -286,7 +290,8 @@ def run_helpers(ch, tr: Trace) -> None:
         Op("get_mutate", 2, op_get_alias),
         Op("reject", 2, op_reject),
     ]
-    run_history(ch, tr, ops, 3, 30)
+    run_history(ch, tr, ops, 3, 30, diagnose=lambda w: check_all(w, force=True))
+    check_all("the end of the history", force=True)
     tr.emit("end")
 
 
@@ -328,7 +333,11 @@ def run_eqsys(ch, tr: Trace) -> None:
         sub = ch.subset(atoms, 1)
         return list(sub), sub
 
-    def check_all(where):
+    obs = Observer(ch, tr)
+
+    def check_all(where, force=False):
+        if not (force or obs.due()):
+            return
         for loc in LOCS:
             for v in atoms:
                 w = model[(loc, v.id)]
@@ -449,7 +458,8 @@ def run_eqsys(ch, tr: Trace) -> None:
         Op("get_mutate", 2, op_get_alias),
         Op("reject", 2, op_reject),
     ]
-    run_history(ch, tr, ops, 3, 24)
+    run_history(ch, tr, ops, 3, 24, diagnose=lambda w: check_all(w, force=True))
+    check_all("the end of the history", force=True)
     tr.emit("end")
 
 
@@ -462,18 +472,18 @@ def _driver_run(ch, tr):
 def _driver_mp_run(ch, tr):
     from engines import driver_sim
 
-    return driver_sim.make_run("C08", families=("energy", "mech", "poro"))(ch, tr)
+    return driver_sim.make_run("C08", families=("energy", "mech", "poro", "damage"))(ch, tr)
 
 
 WORKLOADS = [
     Workload(
-        name="driver", run=_driver_run, runs={"quick": 128, "thorough": 4_000}, chunk=8, run_timeout=300.0,
+        name="driver", leak_mb=0.75, override_cap=32, run=_driver_run, runs={"quick": 128, "thorough": 4_000}, chunk=8, run_timeout=300.0,
         real=["SolutionStrategy.update_solution / after_nonlinear_iteration (depth = len(time_step_indices) / len(iterate_indices), 1-3) inside the real time loop and Newton loop under injected solver faults"],
         stub=["fault-injecting overrides of check_convergence / solve_linear_system", "save_data_time_step is a no-op"],
         note="anchor 2 of the property: model usage of the sliding window, observed after every converged/failed step",
     ),
     Workload(
-        name="driver_mp", run=_driver_mp_run, runs={"quick": 32, "thorough": 1_500}, chunk=4, run_timeout=600.0,
+        name="driver_mp", leak_mb=0.9, override_cap=12, run=_driver_mp_run, runs={"quick": 32, "thorough": 1_500}, chunk=4, run_timeout=600.0,
         real=["as workload driver, physics = MassAndEnergyBalance / MomentumBalance with contact mechanics / Poromechanics (vector, interface and contact-traction variables in the windows)"],
         stub=["fault-injecting overrides of check_convergence / solve_linear_system", "save_data_time_step is a no-op"],
     ),
